@@ -55,7 +55,11 @@ SPEC = dict(
         "hypothesis hC of parse_reentrant (results do not depend on the instance counter) is tied by the stress: the "
         "sequential and the concurrent results are computed at different counter values",
     ],
-    assumptions=["sequentially consistent interleaving semantics (data races are looked for with -race in the thorough tier, not modelled)"],
+    assumptions=["no debugger is attached to a provider while two or more goroutines evaluate with it: ecalDebugger.VisitState writes ed.lastVisit "
+                 "holding only the read lock and SetLockingState / SetThreadPool are check-then-set without synchronisation (data races in "
+                 "interpreter/debug.go, no crash observed). The property constrains the parser and the construction of runtime components; the "
+                 "debugger's evaluation hooks are C15 / C16's code. Mode inject suspends ONE thread",
+                 "all sources are named \"t\" (Error.Source / Lsource do not vary); imports go through MemoryImportLocator only","sequentially consistent interleaving semantics (data races are looked for with -race in the thorough tier, not modelled)"],
     decode=decode,
 )
 SPEC["search"] = _conc.search(SPEC)
@@ -85,5 +89,5 @@ def run(ctx):
         rc = max(rc, _conc.race_run(ctx, SPEC, tier="quick"))
     else:
         # a 10-case slice under the race detector in the quick tier too
-        rc = max(rc, _conc.race_run(ctx, SPEC, tier="quick", env_more={"VERIF_C13_CASES": "10"}))
+        rc = max(rc, _conc.race_run(ctx, SPEC, tier="quick", env_more={"VERIF_C13_STRATIFIED": "1"}))
     return rc
